@@ -557,6 +557,33 @@ def _mk_verbs(picks):
     return verbs
 
 
+TYPE_PROBE = '$__t = joinv(apply($*, func(k,v) {return {k: typeof(v)}}), ";")'
+
+
+def _integral_float_at_boundary(res, verbs, stage_inputs, aux):
+    """Run every non-last stage once more with a typeof() probe appended; True if any value that crosses a
+    boundary is of type float but is spelled like an integer."""
+    for (ifmt, data), v in zip(stage_inputs[:-1], verbs[:-1]):
+        r = R.mlr(IFLAG[ifmt] + ["--ojsonl"] + NOFLAT + v["argv"] + ["then", "put", TYPE_PROBE], stdin=data, files=aux)
+        bump(res, "a_runs")
+        if r.verdict != "exited" or r.rc != 0:
+            continue
+        try:
+            recs = scan_records(r.out)
+        except ScanError:
+            continue
+        for rec in recs:
+            if not rec or rec[-1][0] != "__t":
+                continue
+            types = rec[-1][1].split(";") if rec[-1][1] else []
+            if len(types) != len(rec) - 1:
+                continue
+            for (k, text, kind), t in zip(rec[:-1], types):
+                if t == "float" and re.fullmatch(r"[-+]?[0-9]+", text):
+                    return True
+    return False
+
+
 def pipe_case(case):
     rng = random.Random(case["seed"])
     tier = case["tier"]
@@ -658,8 +685,10 @@ def pipe_case(case):
         failed_at = None
         pipe_side = {}
         stage_recs = []
+        stage_inputs = []
         abort = False
         for j, v in enumerate(verbs):
+            stage_inputs.append((cur_ifmt, cur))
             last = (j == len(verbs) - 1)
             rpb = rng.choice([[], [], ["--records-per-batch", "1"], ["--records-per-batch", "3"]])
             base = rpb + IFLAG[cur_ifmt]
@@ -784,6 +813,14 @@ def pipe_case(case):
                         if re.fullmatch(r"-?[0-9]{19,}", t) and not (-2**63 <= int(t) < 2**63):
                             vclass = "int-literal-beyond-int64"
                         break
+            # Explain before accusing: does some boundary carry a float whose rendering is an integer literal
+            # (7.0 * 2 prints as 14)?  Numbers read from text are typed by their spelling (reference-main-arithmetic.md),
+            # so no format - JSON included - can carry that value's float-ness; a type-sensitive downstream verb
+            # (format-values, typeof, summary's field_type, int-preserving arithmetic) then legitimately differs.
+            if dc in ("value", "type") and _integral_float_at_boundary(res, verbs, stage_inputs, aux):
+                res["skipped"] += 1
+                bump(res, "a_declined_integral_float_crosses_boundary")
+                continue
             # a record with duplicate field names (not representable in any format) made by some stage?
             dup_from = "-"
             for v, obs in zip(verbs, stage_recs + [chain_recs]):
@@ -1422,8 +1459,7 @@ def src_case(case):
                     delivered[f] = max(delivered[f], len(exp_by_file[f]))
                 continue
             if st != "differs":
-                shaped = False
-                continue
+                continue        # a run that fails outright (e.g. a line cut in the middle no longer parses) has no shape
             by = {}
             for rec in g:
                 dd = dict(rec)
@@ -1443,8 +1479,9 @@ def src_case(case):
                           dict(detail, stderr=r.err[-1500:]))
         elif status == "unparseable":
             add_violation(res, dict(sig, diff="unparseable"), f"input form {fm['form']}: output unparseable", dict(detail, stdout=r.out[:1500]))
-        elif shaped or (status == "fails" and any(st == "ok" for st, _, _ in runs)):
-            loss = "race-like" if all(delivered[f] > 0 or not exp_by_file[f] for f in delivered) else "always-nothing"
+        elif shaped:
+            any_ok = any(st == "ok" for st, _, _ in runs)
+            loss = "race-like" if (any_ok or all(delivered[f] > 0 or not exp_by_file[f] for f in delivered)) else "always-nothing"
             nbad = sum(1 for st, _, _ in runs if st != "ok")
             add_violation(res, dict(sig, diff="tail-lost", loss=loss),
                           f"input form {fm['form']} ({fmt}, {nameclass} file names) loses records: {nbad} of {len(runs)} identical runs deliver only a prefix of "
@@ -1562,6 +1599,10 @@ def run(chk):
         "a: inputs with non-canonical number spellings (0x1F, +5, .5, 0b101, 1.5e0) are never sent through JSON intermediates: JSON output is "
         "documented to re-render numbers whose original text is not valid JSON (reference-main-data-types.md); their final output uses --jvquoteall so that "
         "original text is compared",
+        "a: a mismatch is declined (skipped, counted in observed.a_declined_integral_float_crosses_boundary) when a typeof() probe shows that a value "
+        "crossing a pipe boundary is a float spelled like an integer (7.0 * 2 prints as 14): numbers read from text are typed by their spelling "
+        "(reference-main-arithmetic.md), so no format, JSON included, carries that float-ness, and type-sensitive downstream verbs "
+        "(format-values, typeof, summary field_type) then differ by documented inference rules",
         "a: when both the chain and the pipe fail the case is skipped; the pipe is run sequentially (each stage to completion), so tee/split files "
         "are compared only when no later verb is documented/known to stop consuming input early (head without -g, seqgen, nothing, check)",
         "b: an empty (0-byte) file, a header-only CSV/TSV/PPRINT file and a JSON `[]` file contribute no records but count in FILENUM "
